@@ -582,3 +582,197 @@ Proof.
     destruct (st_val s); [reflexivity|]. destruct (c_def c); [reflexivity|discriminate].
   - discriminate.
 Qed.
+
+(* ---- index entries stay those of the stored value (resbadger.Model with IndexSet) ---- *)
+Lemma ent_eqb_eq : forall a b : ent, ent_eqb a b = true <-> a = b.
+Proof.
+  intros [i k] [j k']. unfold ent_eqb. cbn [fst snd]. split.
+  - intros H. apply andb_true_iff in H. destruct H as [H1 H2].
+    apply N.eqb_eq in H1. apply beq_eq in H2. subst. reflexivity.
+  - intros H. inversion H; subst. rewrite N.eqb_refl, beq_refl. reflexivity.
+Qed.
+
+Lemma In_idx_set : forall x l e, In e (idx_set x l) <-> e = x \/ In e l.
+Proof.
+  intros x l e. unfold idx_set. destruct (existsb (ent_eqb x) l) eqn:E.
+  - split; [auto|]. intros [H|H]; [|exact H]. subst e.
+    apply existsb_exists in E. destruct E as [y [Hy Hxy]]. apply ent_eqb_eq in Hxy. subst y. exact Hy.
+  - rewrite in_app_iff. cbn [In]. split.
+    + intros [H|[H|[]]]; auto.
+    + intros [H|H]; auto.
+Qed.
+
+Lemma In_idx_del : forall x l e, In e (idx_del x l) <-> e <> x /\ In e l.
+Proof.
+  intros x l e. unfold idx_del. rewrite filter_In. split.
+  - intros [H1 H2]. split; [|exact H1]. intros E. subst e.
+    assert (ent_eqb x x = true) as R by (apply ent_eqb_eq; reflexivity). rewrite R in H2. discriminate.
+  - intros [H1 H2]. split; [exact H2|]. destruct (ent_eqb x e) eqn:E; [|reflexivity].
+    apply ent_eqb_eq in E. subst. contradiction.
+Qed.
+
+Definition E1 (i : N) (o : option bytes) : list ent := match o with Some k => [(i, k)] | None => [] end.
+
+Lemma idx_entries_cons : forall i kf ks r,
+  idx_entries i (kf :: ks) r = E1 i (kf r) ++ idx_entries (i + 1) ks r.
+Proof. reflexivity. Qed.
+
+Lemma entries_ge : forall ks j r e, In e (idx_entries j ks r) -> j <= fst e.
+Proof.
+  induction ks as [|kf ks IH]; intros j r e H; [contradiction|].
+  rewrite idx_entries_cons in H. apply in_app_iff in H. destruct H as [H|H].
+  - unfold E1 in H. destruct (kf r); [|contradiction]. destruct H as [H|[]]. subst e. cbn. lia.
+  - apply IH in H. lia.
+Qed.
+
+Lemma idx_create_in : forall ks i d l e,
+  In e (idx_create i ks d l) <-> In e l \/ In e (idx_entries i ks d).
+Proof.
+  induction ks as [|kf ks IH]; intros i d l e.
+  - cbn. tauto.
+  - cbn [idx_create]. rewrite IH, idx_entries_cons, in_app_iff. unfold E1.
+    destruct (kf d) as [k|].
+    + rewrite In_idx_set. cbn [In]. split; intros H.
+      * destruct H as [[H|H]|H]; [subst; right; left; left; reflexivity|left; exact H|right; right; exact H].
+      * destruct H as [H|[[H|[]]|H]]; [left; right; exact H|subst; left; left; reflexivity|right; exact H].
+    + cbn [In]. tauto.
+Qed.
+
+Lemma idx_delete_in : forall ks i r l e,
+  In e (idx_delete i ks r l) <-> In e l /\ ~ In e (idx_entries i ks r).
+Proof.
+  induction ks as [|kf ks IH]; intros i r l e.
+  - cbn. tauto.
+  - cbn [idx_delete]. rewrite IH, idx_entries_cons, in_app_iff. unfold E1.
+    destruct (kf r) as [k|].
+    + rewrite In_idx_del. cbn [In]. split.
+      * intros [[H1 H2] H3]. split; [exact H2|]. intros [[H|[]]|H]; [congruence|contradiction].
+      * intros [H1 H2]. split; [split; [|exact H1]|]; intros H; apply H2; auto.
+    + cbn [In]. tauto.
+Qed.
+
+Lemma beq_nil_r : forall x, beq x [] = is_nil x.
+Proof. destruct x; reflexivity. Qed.
+Lemma beq_nil_l : forall x, beq [] x = is_nil x.
+Proof. destruct x; reflexivity. Qed.
+Lemma is_nil_false : forall (x : bytes), x <> [] -> is_nil x = false.
+Proof. destruct x; [congruence|reflexivity]. Qed.
+
+Definition idx_step (i : N) (kf : keyfn) (b a : res) (l : list ent) : list ent :=
+  let bk := kbytes (kf b) in
+  let ak := kbytes (kf a) in
+  if beq bk ak then l
+  else
+    let l' := if is_nil bk then l else idx_del (i, bk) l in
+    if is_nil ak then l' else idx_set (i, ak) l'.
+
+Lemma idx_change_cons : forall i kf ks b a l,
+  idx_change i (kf :: ks) b a l = idx_change (i + 1) ks b a (idx_step i kf b a l).
+Proof. reflexivity. Qed.
+
+Lemma idx_step_in : forall i (kf : keyfn) b a l R rest,
+  (forall r, kf r <> Some []) ->
+  (forall e, In e R -> fst e < i) ->
+  (forall e, In e rest -> i + 1 <= fst e) ->
+  (forall e, In e l <-> In e R \/ In e (E1 i (kf b)) \/ In e rest) ->
+  forall e, In e (idx_step i kf b a l) <-> In e R \/ In e (E1 i (kf a)) \/ In e rest.
+Proof.
+  intros i kf b a l R rest NE HR Hrest HL e.
+  assert (forall k, In e R -> e <> (i, k)) as RN.
+  { intros k H E. apply HR in H. subst e. cbn in H. lia. }
+  assert (forall k, In e rest -> e <> (i, k)) as SN.
+  { intros k H E. apply Hrest in H. subst e. cbn in H. lia. }
+  pose proof (NE b) as NB. pose proof (NE a) as NA. specialize (HL e).
+  unfold idx_step.
+  destruct (kf b) as [kb|]; destruct (kf a) as [ka|]; cbn [kbytes E1 In] in *.
+  - assert (kb <> []) as B by (intros H; subst kb; apply NB; reflexivity).
+    assert (ka <> []) as A by (intros H; subst ka; apply NA; reflexivity).
+    rewrite (is_nil_false _ A), (is_nil_false _ B).
+    destruct (beq kb ka) eqn:E.
+    + apply beq_eq in E. subst ka. exact HL.
+    + rewrite In_idx_set, In_idx_del, HL. split.
+      * intros [H|[H1 [H|[[H|[]]|H]]]]; auto; try congruence; subst; auto.
+      * intros [H|[[H|[]]|H]].
+        -- right. split; [apply RN; exact H|auto].
+        -- left. auto.
+        -- right. split; [apply SN; exact H|auto].
+  - assert (kb <> []) as B by (intros H; subst kb; apply NB; reflexivity).
+    rewrite beq_nil_r, (is_nil_false _ B). cbn [is_nil].
+    rewrite In_idx_del, HL. split.
+    + intros [H1 [H|[[H|[]]|H]]]; auto; try congruence; subst; auto.
+    + intros [H|[[]|H]].
+      * split; [apply RN; exact H|auto].
+      * split; [apply SN; exact H|auto].
+  - assert (ka <> []) as A by (intros H; subst ka; apply NA; reflexivity).
+    rewrite beq_nil_l, (is_nil_false _ A). cbn [is_nil].
+    rewrite In_idx_set, HL. split.
+    + intros [H|[H|[[]|H]]]; auto.
+    + intros [H|[[H|[]]|H]]; auto.
+  - cbn [beq]. exact HL.
+Qed.
+
+Lemma idx_change_in : forall ks i b a l R,
+  keys_nonempty ks ->
+  (forall e, In e R -> fst e < i) ->
+  (forall e, In e l <-> In e R \/ In e (idx_entries i ks b)) ->
+  forall e, In e (idx_change i ks b a l) <-> In e R \/ In e (idx_entries i ks a).
+Proof.
+  induction ks as [|kf ks IH]; intros i b a l R NE HR HL e.
+  - cbn [idx_change idx_entries] in *. exact (HL e).
+  - rewrite idx_change_cons, idx_entries_cons.
+    assert (forall r, kf r <> Some []) as NK by (intros r; apply NE; left; reflexivity).
+    assert (keys_nonempty ks) as NE' by (intros kf' r H; apply NE; right; exact H).
+    assert (forall e, In e (idx_step i kf b a l) <->
+                      In e (R ++ E1 i (kf a)) \/ In e (idx_entries (i + 1) ks b)) as H1.
+    { intros e'. rewrite in_app_iff.
+      assert (In e' (idx_step i kf b a l) <->
+              In e' R \/ In e' (E1 i (kf a)) \/ In e' (idx_entries (i + 1) ks b)) as X.
+      { apply idx_step_in; auto.
+        - intros e0 H0. apply entries_ge in H0. exact H0.
+        - intros e0. rewrite (HL e0), idx_entries_cons, in_app_iff. tauto. }
+      tauto. }
+    rewrite (IH (i + 1) b a (idx_step i kf b a l) (R ++ E1 i (kf a)) NE').
+    + rewrite !in_app_iff. tauto.
+    + intros e0 H0. apply in_app_iff in H0. destruct H0 as [H0|H0].
+      * apply HR in H0. lia.
+      * unfold E1 in H0. destruct (kf a); [|contradiction]. destruct H0 as [H0|[]]. subst e0. cbn. lia.
+    + exact H1.
+Qed.
+
+Lemma fire_idx_ok : forall c ks s e,
+  c_pkg c = ResB -> c_type c = TModel -> c_idx c = Some ks -> c_def c = None ->
+  keys_nonempty ks -> idx_ok ks s -> idx_ok ks (o_state (fire c s e)).
+Proof.
+  intros c ks s e P T IX D NE OK.
+  assert (idxs c = Some ks) as IXS by (unfold idxs; rewrite P, T; exact IX).
+  destruct e as [cs|v i|i|d|]; cbn [fire]; rewrite ?T; try exact OK.
+  - destruct cs as [|c0 cs0]; [exact OK|]. cbn [is_nil]. set (cs := c0 :: cs0).
+    unfold apply_change, start. rewrite T, D, IXS.
+    destruct (st_val s) as [[m0|l]|] eqn:V; try exact OK.
+    destruct (change_loop cs m0) as [m1 rev].
+    destruct rev as [|x rev]; cbn [is_nil]; [exact OK|].
+    destruct (fits c (RModel m0) && fits c (RModel m1)); cbn [o_state]; [|exact OK].
+    intros e. cbn [st_val st_idx idx_spec].
+    rewrite (idx_change_in ks 0 (RModel m0) (RModel m1) (st_idx s) [] NE).
+    + cbn [In]. tauto.
+    + intros e0 [].
+    + intros e0. cbn [In]. rewrite (OK e0), V. cbn [idx_spec]. tauto.
+  - unfold apply_create. rewrite D, IXS.
+    destruct (st_val s) as [r|] eqn:V; [exact OK|]. cbn [o_state].
+    intros e. cbn [st_idx st_val idx_spec]. rewrite idx_create_in. pose proof (OK e) as O. rewrite V in O. cbn [idx_spec In] in O. tauto.
+  - unfold apply_delete. rewrite P, IXS.
+    destruct (st_val s) as [r|] eqn:V; [|exact OK].
+    destruct (fits c r); cbn [o_state]; [|exact OK].
+    intros e. cbn [st_idx st_val idx_spec]. rewrite idx_delete_in. pose proof (OK e) as O. rewrite V in O. cbn [idx_spec] in O. cbn [In]. tauto.
+Qed.
+
+Lemma idx_consistent_pf : forall c ks s es,
+  c_pkg c = ResB -> c_type c = TModel -> c_idx c = Some ks -> c_def c = None ->
+  keys_nonempty ks -> idx_ok ks s -> idx_ok ks (final c s es).
+Proof.
+  intros c ks s es P T IX D NE. revert s. induction es as [|e es IH]; intros s OK; [exact OK|].
+  rewrite final_cons. apply IH. apply fire_idx_ok; assumption.
+Qed.
+
+Lemma reopen_same_pf : forall s, reopen s = s.
+Proof. intros [v i]. reflexivity. Qed.
